@@ -87,7 +87,7 @@ def profile(prop, g):
         kw.update(max_depth=4, layout=g.choice([1, 2, 2]), malformed=g.choice([0, 0, 0, 0.15]), p_docimpl=g.choice([0, 0, 0.4]),
                   p_dup=g.choice([0, 0.35]), p_stale=g.choice([0, 0, 0, 0.25]), same_line=g.choice([0, 0, 0.3]), weights={'dangling': 1.5, 'generic': 2.0, 'blk': 1.5})
     elif prop == 'C03':
-        kw.update(max_depth=4, p_docimpl=g.choice([0, 0, 0.4]), weights={'func': 3, 'macro': 3, 'cpa': 4, 'blk': 2, 'member': 2, 'cttest': 1.5, 'class': 1.5,
+        kw.update(max_depth=4, p_docimpl=g.choice([0, 0, 0.4]), p_dup=g.choice([0, 0.5]), weights={'func': 3, 'macro': 3, 'cpa': 4, 'blk': 2, 'member': 2, 'cttest': 1.5, 'class': 1.5,
                                         'set': 0.3, 'option': 0.3, 'add_test': 0.3, 'generic': 0.5, 'dangling': 0.3})
         cfg['trigger'] = g.choice([':keyword', ':param **kwargs:', '', 'x', ':param'])
         cfg['regex'] = {'fn': g.choice(['', '^_[a-zA-Z]*_', 'x', '^.', '[0-9]+$', 'f|g']), 'macro': g.choice(['', '^_', 'a']),
@@ -106,6 +106,8 @@ def profile(prop, g):
     elif prop == 'C11':
         kw.update(weights={'cttest': 5, 'section': 5, 'add_test': 5, 'func': 0.5, 'class': 0.3, 'set': 0.3}, p_doc=0.6, max_depth=4,
                   malformed=g.choice([0, 0, 0.15]), p_docimpl=g.choice([0, 0, 0.4]), p_stale=g.choice([0, 0, 0, 0.25]))
+        if g.random() < 0.3:      # the property holds under every setting: documented tests and their sections with some undocumented kinds hidden
+            cfg['incl'] = {f: g.random() < 0.5 for f in GM.FLAGS}; cfg['incl']['cpp_class'] = True
     elif prop == 'C04':
         kw.update(layout=2, max_items=5, same_line=g.choice([0, 0.25]))
     elif prop == 'C05':
